@@ -21,6 +21,8 @@ def run(tier, seed):
         atop = 4097 if tier == "thorough" else 600
         plan += [(cfgs[3].name(), 0, top, cp), (cfgs[4].name(), 0, top, cp), (cfgs[5].name(), 0, top, cp),
                  (cfgs[0].name(), 0, atop, cp), (cfgs[2].name(), 0, atop, cp), (cfgs[1].name(), 0, atop, cp)]
+        mc = 6000 if tier == "thorough" else 480
+        plan += [(cfgs[3].name(), n, n + mc, h, vlib.MEMCHECK), (cfgs[4].name(), 0, 130, cp, vlib.MEMCHECK)]
         res = vlib.run_cases(bins, plan, seed, wd)
         v.absorb(res, byname, seed, floor_cases=n)
         c = res.counters
@@ -39,6 +41,7 @@ def run(tier, seed):
             "distinct_type_operation_pairs": len(ops), "operations": ops,
             "ledger_events": c.get("ledger_allocs", 0) + c.get("ledger_frees", 0),
             "per_build_cases": res.per_cfg_cases, "builds": [x.describe() for x in cfgs],
+            "histories_under_memcheck": mc,
             "cases_not_explored": res.unexplored,
         }
         return v.finish(cov, ["capacities are never compared with the model, only capacity >= size",
